@@ -25,11 +25,16 @@ from .common import BUILD
 PROPS = ["PPLV.Props.C01Full"]
 
 
-def _run_histories(ctx, h, drv, wd, tag, first, last, nproc=14, maxdim=3, maxlen=10):
+def _run_histories(ctx, h, drv, wd, tag, first, last, nproc=14, maxdim=3, maxlen=10, chunk=25, chunk_timeout=240,
+                   deadline_s=840):
+    """Harness on `nproc` ranges, then the journal is cut into chunks of `chunk` histories and one driver runs per
+    chunk (thread pool).  A chunk that exceeds `chunk_timeout`, or that would start after `deadline_s`, is NOT an
+    error: the verdicts it has written so far are kept, its remaining histories are counted as skipped.
+    -> (histories by id, verdict lines, stats)"""
     per = max(1, (last - first + nproc - 1) // nproc)
     jobs = [(a, min(last, a + per)) for a in range(first, last, per)]
 
-    def work(j):
+    def gen(j):
         a, b = j
         jp = os.path.join(wd, "%s-%d.journal" % (tag, a))
         cmd = [h, "--seed", str(ctx.seed), "--first", str(a), "--last", str(b), "--batch", "20",
@@ -37,27 +42,56 @@ def _run_histories(ctx, h, drv, wd, tag, first, last, nproc=14, maxdim=3, maxlen
         rc, _, err = ctx.run(cmd, stdout_path=jp, timeout=1800)
         if rc != 0:
             ctx.fatal("harness c01_full failed rc=%s %s" % (rc, (err or "")[-400:]))
-        rc, out, err = ctx.run([drv, "--resync"], stdin_path=jp, timeout=3600)
-        if rc != 0:
-            ctx.fatal("driver pplv_polyfull failed rc=%s %s" % (rc, (err or "")[-400:]))
-        return open(jp).read().splitlines(), out.splitlines(), cmd
+        return open(jp).read().splitlines()
 
-    hist, verdicts, cmds = {}, [], []
+    hist, order = {}, []
     with cf.ThreadPoolExecutor(nproc) as ex:
-        for jl, vl, cmd in ex.map(work, jobs):
+        for jl in ex.map(gen, jobs):
             cur = None
             for l in jl:
                 if l.startswith("begin "):
                     cur = l.split()[1]
                     hist[cur] = [l]
-                elif l.startswith("crash "):
-                    if cur is not None:
-                        hist[cur].append(l)
+                    order.append(cur)
                 elif cur is not None:
                     hist[cur].append(l)
-            verdicts += vl
-            cmds.append(cmd)
-    return hist, verdicts, cmds
+    chunks = [order[k:k + chunk] for k in range(0, len(order), chunk)]
+    t0 = time.time()
+    stats = collections.Counter()
+
+    def work(idx):
+        ids = chunks[idx]
+        if time.time() - t0 > deadline_s:
+            return ids, [], "deadline"
+        cp = os.path.join(wd, "%s-chunk%d.txt" % (tag, idx))
+        op = os.path.join(wd, "%s-chunk%d.out" % (tag, idx))
+        with open(cp, "w") as f:
+            for i in ids:
+                f.write("\n".join(hist[i]) + "\n")
+        rc, _, err = ctx.run([drv, "--resync"], stdin_path=cp, stdout_path=op, timeout=chunk_timeout)
+        raw = open(op).read() if os.path.exists(op) else ""
+        out = raw.splitlines()
+        if rc == -999:
+            if raw and not raw.endswith("\n"):
+                out = out[:-1]          # a line cut in the middle
+            return ids, out, "timeout"
+        if rc != 0:
+            ctx.fatal("driver pplv_polyfull failed rc=%s %s" % (rc, (err or "")[-400:]))
+        return ids, out, "done"
+
+    verdicts = []
+    with cf.ThreadPoolExecutor(nproc) as ex:
+        for ids, out, how in ex.map(work, range(len(chunks))):
+            verdicts += out
+            stats["chunks_" + how] += 1
+            if how != "done":
+                ended = {l.split()[1] for l in out if l.startswith(("ok ", "exc ", "skip "))}
+                left = [i for i in ids if i not in ended]
+                stats["histories_skipped_" + how] += len(left)
+                for i in left:
+                    hist.pop(i, None)       # not judged: neither ok nor crashed
+    stats["chunks"] = len(chunks)
+    return hist, verdicts, stats
 
 
 def _kv(toks, key):
@@ -75,10 +109,16 @@ def run(ctx):
     wd = os.path.join(BUILD, "run-%s-full-%d" % (ctx.pid, os.getpid()))
     shutil.rmtree(wd, ignore_errors=True)
     os.makedirs(wd)
-    n_hist = 420 if quick else 12000
+    n_hist = 420 if quick else 5000
     t0 = time.time()
-    hist, verdicts, _ = _run_histories(ctx, h, drv, wd, "main", 0, n_hist)
+    hist, verdicts, rstats = _run_histories(ctx, h, drv, wd, "main", 0, n_hist, chunk=15 if quick else 25,
+                                            chunk_timeout=120 if quick else 240, deadline_s=150 if quick else 780)
     t_run = time.time() - t0
+    n_skipped = rstats.get("histories_skipped_timeout", 0) + rstats.get("histories_skipped_deadline", 0)
+    if n_skipped:
+        print("  note: full Polyhedron model: %d of %d histories not judged (driver chunk over its time budget: %d, started after "
+              "the deadline: %d) - counted as skipped, not an alarm" % (n_skipped, n_hist, rstats.get("chunks_timeout", 0),
+                                                                       rstats.get("chunks_deadline", 0)), flush=True)
 
     per_op = collections.defaultdict(collections.Counter)
     trans = collections.Counter()
@@ -157,7 +197,9 @@ def run(ctx):
                       found_input=found, record={"site": site, "tags": [kind]})
 
     ctx.cov["full_model"] = {
-        "histories": len(hist), "histories_replayed_to_the_end": n_hist_ok, "steps_identical_to_model": n_steps,
+        "histories": n_hist, "histories_judged": len(hist), "histories_replayed_to_the_end": n_hist_ok,
+        "skipped_timeout": rstats.get("histories_skipped_timeout", 0), "skipped_deadline": rstats.get("histories_skipped_deadline", 0),
+        "driver_chunks": {k: v for k, v in rstats.items() if k.startswith("chunks")}, "steps_identical_to_model": n_steps,
         "steps_in_which_the_engine_ran": n_conv, "harness_and_driver_wall_s": round(t_run, 1),
         "distinct_histories": len(distinct),
         "mismatches": {"%s:%s" % k: len(v) for k, v in sorted(bad.items())},
